@@ -104,7 +104,7 @@ def hourly_index(tz, start, days):
 
 
 def synth_hourly(tz="America/Chicago", start="2018-01-01", days=365, seed=0, ghi=False, noise=0.05,
-                 mean=55.0, amp=25.0, scale=1.0, irregular=False, occupancy=False):
+                 mean=55.0, amp=25.0, scale=1.0, irregular=False, occupancy=False, occupancy_name="occupancy"):
     """irregular: every (month, weekday) has its own random-walk load shape (no clean weekday/weekend structure, so the
     temporal clustering has several nearly equally good partitions - the seed matters); occupancy: a supplemental
     time-series column that drives part of the load.  Both draw from the generator only when enabled."""
@@ -124,7 +124,7 @@ def synth_hourly(tz="America/Chicago", start="2018-01-01", days=365, seed=0, ghi
     if occupancy:
         occ = ((hod >= 8) & (hod <= 18) & (dow < 5)).astype(float) + rng.normal(0, 0.05, len(idx))
         df["observed"] = df["observed"] + 0.5 * occ * scale
-        df["occupancy"] = occ
+        df[occupancy_name] = occ
     if ghi:
         df["ghi"] = np.maximum(0, 800 * np.sin(np.pi * (hod - 6) / 12)) * (0.6 + 0.4 * np.sin(2 * np.pi * (doy - 80) / 365))
         df["observed"] = df["observed"] - df["ghi"] / 1000 * scale
